@@ -21,41 +21,46 @@ Ltac Zify.zify_post_hook ::= Z.to_euclidean_division_equations.
 
 (* the geometry facts used: a sane FAT12/16 layout (Proofs/VolDirProofs.fixed_root_geom) whose cluster size is a multiple of
    the slot size (every power-of-two sector size >= 32 gives that) *)
+(* the facts about the geometry that section 1 needs - the same for a FAT12/16 volume ([chain_geom] below) and for a FAT32
+   volume (Proofs/Vol32RootProofs.v): sector and cluster sizes are positive, a cluster holds whole slots.  The lemmas of
+   section 1 are proved for [slot_geom] (names ending in _sg); the statements for [chain_geom] follow as corollaries. *)
+Definition slot_geom (g : geom) : Prop := 1 <= g_bps g /\ 1 <= g_spc g /\ g_cluster_size g mod 32 = 0.
+
 Definition chain_geom (g : geom) : Prop := fixed_root_geom g /\ g_cluster_size g mod 32 = 0.
 
 (* the clusters of a directory chain: pairwise distinct data clusters *)
 Definition chain_ok (g : geom) (l : list N) : Prop := NoDup l /\ Forall (fun c => 2 <= c < g_clusters g + 2) l.
 
-Lemma cluster_size_slots g : chain_geom g -> N.to_nat (g_cluster_size g) = (32 * cluster_slots g)%nat.
-Proof. intros [_ H]. unfold cluster_slots. lia. Qed.
+Lemma cluster_size_slots_sg g : slot_geom g -> N.to_nat (g_cluster_size g) = (32 * cluster_slots g)%nat.
+Proof. intros (_ & _ & H). unfold cluster_slots. lia. Qed.
 
-Lemma cluster_size_pos g : chain_geom g -> 0 < g_cluster_size g.
-Proof. intros [Hg _]. pose proof (fg_bps g Hg). pose proof (fg_spc g Hg). unfold g_cluster_size. nia. Qed.
+Lemma cluster_size_pos_sg g : slot_geom g -> 0 < g_cluster_size g.
+Proof. intros (H1 & H2 & _). unfold g_cluster_size. nia. Qed.
 
 Lemma cluster_bytes_length g im c : length (cluster_bytes g im c) = N.to_nat (g_cluster_size g).
 Proof. unfold cluster_bytes. apply img_read_length. Qed.
 
-Lemma chain_bytes_length g im l : chain_geom g -> length (chain_bytes g im l) = (32 * (cluster_slots g * length l))%nat.
+Lemma chain_bytes_length_sg g im l : slot_geom g -> length (chain_bytes g im l) = (32 * (cluster_slots g * length l))%nat.
 Proof.
   intros Hg. unfold chain_bytes. induction l as [|c r IH]; cbn [flat_map length]; [lia|].
-  rewrite app_length, IH, cluster_bytes_length, (cluster_size_slots g Hg). lia.
+  rewrite app_length, IH, cluster_bytes_length, (cluster_size_slots_sg g Hg). lia.
 Qed.
 
-Lemma chain_dir_shape g im l : chain_geom g ->
+Lemma chain_dir_shape_sg g im l : slot_geom g ->
   shape (cluster_slots g * length l) (chain_dir_slots g im l) /\ concat (chain_dir_slots g im l) = chain_bytes g im l.
 Proof.
   intros Hg. unfold chain_dir_slots, slots_of. apply chunk32_of_len.
-  - apply chain_bytes_length. exact Hg.
-  - rewrite (chain_bytes_length g im l Hg).
+  - apply chain_bytes_length_sg. exact Hg.
+  - rewrite (chain_bytes_length_sg g im l Hg).
     replace (32 * (cluster_slots g * length l))%nat with ((cluster_slots g * length l) * 32)%nat by lia.
     rewrite Nat.div_mul by lia. lia.
 Qed.
 
 (* distinct data clusters occupy disjoint byte ranges, all inside the data area *)
-Lemma cluster_off_ge g c : chain_geom g -> g_first_data g * g_bps g <= g_cluster_off g c.
+Lemma cluster_off_ge_sg g c : slot_geom g -> g_first_data g * g_bps g <= g_cluster_off g c.
 Proof. intros _. unfold g_cluster_off. nia. Qed.
 
-Lemma cluster_ranges_disjoint g c c' : chain_geom g -> 2 <= c -> 2 <= c' -> c <> c' ->
+Lemma cluster_ranges_disjoint_sg g c c' : slot_geom g -> 2 <= c -> 2 <= c' -> c <> c' ->
   g_cluster_off g c + g_cluster_size g <= g_cluster_off g c' \/ g_cluster_off g c' + g_cluster_size g <= g_cluster_off g c.
 Proof.
   intros _ H1 H2 Hne. unfold g_cluster_off, g_cluster_size.
@@ -68,7 +73,7 @@ Lemma skipn_shape k n ss : shape n ss -> shape (n - k) (skipn k ss).
 Proof. intros [S1 S2]. split; [rewrite skipn_length; lia|apply Forall_skipn'; exact S2]. Qed.
 
 (* nothing outside the clusters of the chain changes *)
-Lemma put_chain_outside g : chain_geom g -> forall l im ss o, shape (cluster_slots g * length l) ss ->
+Lemma put_chain_outside_sg g : slot_geom g -> forall l im ss o, shape (cluster_slots g * length l) ss ->
   (forall c, In c l -> o < g_cluster_off g c \/ g_cluster_off g c + g_cluster_size g <= o) ->
   img_get (put_chain_slots g im l ss) o = img_get im o.
 Proof.
@@ -78,26 +83,26 @@ Proof.
   - apply img_write_outside. rewrite concat_len32 by (apply Forall_firstn'; exact (proj2 Hs)).
     rewrite firstn_length. destruct Hs as [S1 _]. rewrite S1.
     replace (Nat.min (cluster_slots g) (cluster_slots g * S (length r))) with (cluster_slots g) by lia.
-    pose proof (cluster_size_slots g Hg) as Hcs. destruct (Ho c (or_introl eq_refl)) as [H|H]; [left; exact H|right; lia].
+    pose proof (cluster_size_slots_sg g Hg) as Hcs. destruct (Ho c (or_introl eq_refl)) as [H|H]; [left; exact H|right; lia].
   - replace (cluster_slots g * length r)%nat with (cluster_slots g * S (length r) - cluster_slots g)%nat by lia.
     apply skipn_shape. exact Hs.
   - intros c' Hc'. apply Ho. right. exact Hc'.
 Qed.
 
 (* the bytes of a cluster that is not in the chain are untouched *)
-Lemma put_chain_other_cluster g l im ss c : chain_geom g -> shape (cluster_slots g * length l) ss ->
+Lemma put_chain_other_cluster_sg g l im ss c : slot_geom g -> shape (cluster_slots g * length l) ss ->
   Forall (fun x => 2 <= x) l -> 2 <= c -> ~ In c l ->
   cluster_bytes g (put_chain_slots g im l ss) c = cluster_bytes g im c.
 Proof.
   intros Hg Hs Hl Hc Hn. unfold cluster_bytes. apply img_read_ext. intros i Hi.
-  apply (put_chain_outside g Hg l im ss _ Hs). intros c' Hc'.
+  apply (put_chain_outside_sg g Hg l im ss _ Hs). intros c' Hc'.
   rewrite Forall_forall in Hl. specialize (Hl c' Hc').
   assert (c' <> c) as Hne by (intros ->; contradiction).
-  destruct (cluster_ranges_disjoint g c' c Hg Hl Hc Hne) as [D|D]; [right; lia|left; lia].
+  destruct (cluster_ranges_disjoint_sg g c' c Hg Hl Hc Hne) as [D|D]; [right; lia|left; lia].
 Qed.
 
 (* READ-BACK: the chain holds exactly the bytes of the slots written *)
-Lemma put_chain_bytes g : chain_geom g -> forall l im ss, chain_ok g l -> shape (cluster_slots g * length l) ss ->
+Lemma put_chain_bytes_sg g : slot_geom g -> forall l im ss, chain_ok g l -> shape (cluster_slots g * length l) ss ->
   chain_bytes g (put_chain_slots g im l ss) l = concat ss.
 Proof.
   intros Hg. induction l as [|c r IH]; intros im ss [ND Hr] Hs.
@@ -111,18 +116,18 @@ Proof.
       apply skipn_shape. exact Hs. }
     assert (shape (cluster_slots g) (firstn (cluster_slots g) ss)) as Hs1 by (apply (firstn_shape _ _ _ Hs); lia).
     rewrite (IH _ _ (conj N2 R2) Hs2).
-    rewrite (put_chain_other_cluster g r _ _ c Hg Hs2); [|eapply Forall_impl; [|exact R2]; intros a Ha; cbv beta in Ha; lia|lia|exact N1].
+    rewrite (put_chain_other_cluster_sg g r _ _ c Hg Hs2); [|eapply Forall_impl; [|exact R2]; intros a Ha; cbv beta in Ha; lia|lia|exact N1].
     rewrite <- (firstn_skipn (cluster_slots g) ss) at 3. rewrite concat_app. f_equal.
     unfold cluster_bytes. apply img_read_eq.
-    + rewrite concat_len32 by exact (proj2 Hs1). rewrite (proj1 Hs1). symmetry. apply cluster_size_slots. exact Hg.
+    + rewrite concat_len32 by exact (proj2 Hs1). rewrite (proj1 Hs1). symmetry. apply cluster_size_slots_sg. exact Hg.
     + intros i Hi. apply img_write_inside. rewrite concat_len32 by exact (proj2 Hs1). rewrite (proj1 Hs1).
-      rewrite <- (cluster_size_slots g Hg). exact Hi.
+      rewrite <- (cluster_size_slots_sg g Hg). exact Hi.
 Qed.
 
-Theorem chain_dir_put g im l ss : chain_geom g -> chain_ok g l -> shape (cluster_slots g * length l) ss ->
+Theorem chain_dir_put_sg g im l ss : slot_geom g -> chain_ok g l -> shape (cluster_slots g * length l) ss ->
   chain_dir_slots g (put_chain_slots g im l ss) l = ss.
 Proof.
-  intros Hg Hl Hs. unfold chain_dir_slots. rewrite (put_chain_bytes g Hg l im ss Hl Hs). apply slots_of_concat. exact (proj2 Hs).
+  intros Hg Hl Hs. unfold chain_dir_slots. rewrite (put_chain_bytes_sg g Hg l im ss Hl Hs). apply slots_of_concat. exact (proj2 Hs).
 Qed.
 
 (* the bytes of slot (k * i + s) of the directory are the bytes 32 * s .. of cluster number i of the chain *)
@@ -135,21 +140,21 @@ Proof.
     cbn [nth]. apply IH; [exact Hf|lia|exact Hr].
 Qed.
 
-Lemma chain_slot_bytes g im l i s j : chain_geom g -> (i < length l)%nat -> (s < cluster_slots g)%nat -> (j < 32)%nat ->
+Lemma chain_slot_bytes_sg g im l i s j : slot_geom g -> (i < length l)%nat -> (s < cluster_slots g)%nat -> (j < 32)%nat ->
   nth j (nth (cluster_slots g * i + s) (chain_dir_slots g im l) []) 0 =
   img_get im (g_cluster_off g (nth i l 0) + N.of_nat (32 * s + j)).
 Proof.
-  intros Hg Hi Hs Hj. destruct (chain_dir_shape g im l Hg) as [[S1 S2] S3].
+  intros Hg Hi Hs Hj. destruct (chain_dir_shape_sg g im l Hg) as [[S1 S2] S3].
   rewrite <- nth_concat32; [|exact S2|rewrite S1; nia|exact Hj]. rewrite S3. unfold chain_bytes.
   replace (32 * (cluster_slots g * i + s) + j)%nat with ((32 * cluster_slots g) * i + (32 * s + j))%nat by lia.
   rewrite (nth_flat_map_uniform (cluster_bytes g im) (32 * cluster_slots g) 0 l i (32 * s + j));
-    [|intros x; rewrite cluster_bytes_length; apply cluster_size_slots; exact Hg|exact Hi|lia].
-  unfold cluster_bytes. apply img_read_nth. rewrite (cluster_size_slots g Hg). lia.
+    [|intros x; rewrite cluster_bytes_length; apply cluster_size_slots_sg; exact Hg|exact Hi|lia].
+  unfold cluster_bytes. apply img_read_nth. rewrite (cluster_size_slots_sg g Hg). lia.
 Qed.
 
 (* THE harmlessness of rewriting the whole chain: a byte differs from the image before only if it lies in a cluster of the
    chain, in a slot whose new content differs from the slot the directory held at that index *)
-Theorem put_chain_slots_changes g im l ss o : chain_geom g -> chain_ok g l -> shape (cluster_slots g * length l) ss ->
+Theorem put_chain_slots_changes_sg g im l ss o : slot_geom g -> chain_ok g l -> shape (cluster_slots g * length l) ss ->
   img_get (put_chain_slots g im l ss) o <> img_get im o ->
   exists i s j, (i < length l)%nat /\ (s < cluster_slots g)%nat /\ (j < 32)%nat /\
     o = g_cluster_off g (nth i l 0) + N.of_nat (32 * s + j) /\
@@ -161,7 +166,7 @@ Proof.
   { destruct (existsb (fun c => (g_cluster_off g c <=? o) && (o <? g_cluster_off g c + g_cluster_size g)) l) eqn:E.
     - apply existsb_exists in E. destruct E as (c & Hc & E). apply andb_true_iff in E. destruct E as [E1 E2].
       apply N.leb_le in E1. apply N.ltb_lt in E2. exists c. split; [exact Hc|lia].
-    - exfalso. apply Hne. apply (put_chain_outside g Hg l im ss o Hs). intros c Hc.
+    - exfalso. apply Hne. apply (put_chain_outside_sg g Hg l im ss o Hs). intros c Hc.
       assert ((g_cluster_off g c <=? o) && (o <? g_cluster_off g c + g_cluster_size g) = false) as F.
       { destruct ((g_cluster_off g c <=? o) && (o <? g_cluster_off g c + g_cluster_size g)) eqn:F; [|reflexivity].
         assert (existsb (fun c => (g_cluster_off g c <=? o) && (o <? g_cluster_off g c + g_cluster_size g)) l = true) as X
@@ -169,7 +174,7 @@ Proof.
       apply andb_false_iff in F. destruct F as [F|F]; [left; apply N.leb_gt in F; exact F|right; apply N.ltb_ge in F; exact F]. }
   destruct (In_nth l c 0 Hc) as (i & Hi & Hnth).
   set (d := N.to_nat (o - g_cluster_off g c)).
-  pose proof (cluster_size_slots g Hg) as Hcs.
+  pose proof (cluster_size_slots_sg g Hg) as Hcs.
   assert (d < 32 * cluster_slots g)%nat as Hd by (unfold d; lia).
   pose proof (Nat.div_mod d 32 ltac:(lia)) as Hdm. pose proof (Nat.mod_upper_bound d 32 ltac:(lia)) as Hm.
   assert (d / 32 < cluster_slots g)%nat as Hk by (apply Nat.div_lt_upper_bound; lia).
@@ -177,19 +182,65 @@ Proof.
   assert (o = g_cluster_off g (nth i l 0) + N.of_nat (32 * (d / 32) + d mod 32)) as Ho by (rewrite Hnth, <- Hdm; unfold d; lia).
   split; [exact Hi|]. split; [exact Hk|]. split; [exact Hm|]. split; [exact Ho|].
   intros E. apply Hne.
-  rewrite Ho at 2. rewrite <- (chain_slot_bytes g im l i (d / 32) (d mod 32) Hg Hi Hk Hm), <- E.
-  rewrite <- (chain_dir_put g im l ss Hg Hl Hs) at 2.
-  rewrite (chain_slot_bytes g (put_chain_slots g im l ss) l i (d / 32) (d mod 32) Hg Hi Hk Hm), <- Ho. reflexivity.
+  rewrite Ho at 2. rewrite <- (chain_slot_bytes_sg g im l i (d / 32) (d mod 32) Hg Hi Hk Hm), <- E.
+  rewrite <- (chain_dir_put_sg g im l ss Hg Hl Hs) at 2.
+  rewrite (chain_slot_bytes_sg g (put_chain_slots g im l ss) l i (d / 32) (d mod 32) Hg Hi Hk Hm), <- Ho. reflexivity.
 Qed.
 
-Corollary put_chain_slots_same g im l o : chain_geom g -> chain_ok g l ->
+Corollary put_chain_slots_same_sg g im l o : slot_geom g -> chain_ok g l ->
   img_get (put_chain_slots g im l (chain_dir_slots g im l)) o = img_get im o.
 Proof.
   intros Hg Hl.
   destruct (N.eq_dec (img_get (put_chain_slots g im l (chain_dir_slots g im l)) o) (img_get im o)) as [E|E]; [exact E|].
-  destruct (put_chain_slots_changes g im l _ o Hg Hl (proj1 (chain_dir_shape g im l Hg)) E) as (i & s & j & _ & _ & _ & _ & C).
+  destruct (put_chain_slots_changes_sg g im l _ o Hg Hl (proj1 (chain_dir_shape_sg g im l Hg)) E) as (i & s & j & _ & _ & _ & _ & C).
   exfalso. apply C. reflexivity.
 Qed.
+
+(* ---------------------------------------------------------------- the same for a FAT12/16 geometry (corollaries) *)
+Lemma chain_slot_geom g : chain_geom g -> slot_geom g.
+Proof. intros [Hg H]. pose proof (fg_bps g Hg). pose proof (fg_spc g Hg). unfold slot_geom. repeat split; try lia; exact H. Qed.
+Lemma cluster_size_slots g : chain_geom g -> N.to_nat (g_cluster_size g) = (32 * cluster_slots g)%nat.
+Proof. intros Hg. exact (cluster_size_slots_sg g (chain_slot_geom g Hg)). Qed.
+Lemma cluster_size_pos g : chain_geom g -> 0 < g_cluster_size g.
+Proof. intros Hg. exact (cluster_size_pos_sg g (chain_slot_geom g Hg)). Qed.
+Lemma chain_bytes_length g im l : chain_geom g -> length (chain_bytes g im l) = (32 * (cluster_slots g * length l))%nat.
+Proof. intros Hg. exact (chain_bytes_length_sg g im l (chain_slot_geom g Hg)). Qed.
+Lemma chain_dir_shape g im l : chain_geom g ->
+  shape (cluster_slots g * length l) (chain_dir_slots g im l) /\ concat (chain_dir_slots g im l) = chain_bytes g im l.
+Proof. intros Hg. exact (chain_dir_shape_sg g im l (chain_slot_geom g Hg)). Qed.
+Lemma cluster_off_ge g c : chain_geom g -> g_first_data g * g_bps g <= g_cluster_off g c.
+Proof. intros Hg. exact (cluster_off_ge_sg g c (chain_slot_geom g Hg)). Qed.
+Lemma cluster_ranges_disjoint g c c' : chain_geom g -> 2 <= c -> 2 <= c' -> c <> c' ->
+  g_cluster_off g c + g_cluster_size g <= g_cluster_off g c' \/ g_cluster_off g c' + g_cluster_size g <= g_cluster_off g c.
+Proof. intros Hg. exact (cluster_ranges_disjoint_sg g c c' (chain_slot_geom g Hg)). Qed.
+Lemma put_chain_outside g : chain_geom g -> forall l im ss o, shape (cluster_slots g * length l) ss ->
+  (forall c, In c l -> o < g_cluster_off g c \/ g_cluster_off g c + g_cluster_size g <= o) ->
+  img_get (put_chain_slots g im l ss) o = img_get im o.
+Proof. intros Hg. exact (put_chain_outside_sg g (chain_slot_geom g Hg)). Qed.
+Lemma put_chain_other_cluster g l im ss c : chain_geom g -> shape (cluster_slots g * length l) ss ->
+  Forall (fun x => 2 <= x) l -> 2 <= c -> ~ In c l ->
+  cluster_bytes g (put_chain_slots g im l ss) c = cluster_bytes g im c.
+Proof. intros Hg. exact (put_chain_other_cluster_sg g l im ss c (chain_slot_geom g Hg)). Qed.
+Lemma put_chain_bytes g : chain_geom g -> forall l im ss, chain_ok g l -> shape (cluster_slots g * length l) ss ->
+  chain_bytes g (put_chain_slots g im l ss) l = concat ss.
+Proof. intros Hg. exact (put_chain_bytes_sg g (chain_slot_geom g Hg)). Qed.
+Theorem chain_dir_put g im l ss : chain_geom g -> chain_ok g l -> shape (cluster_slots g * length l) ss ->
+  chain_dir_slots g (put_chain_slots g im l ss) l = ss.
+Proof. intros Hg. exact (chain_dir_put_sg g im l ss (chain_slot_geom g Hg)). Qed.
+Lemma chain_slot_bytes g im l i s j : chain_geom g -> (i < length l)%nat -> (s < cluster_slots g)%nat -> (j < 32)%nat ->
+  nth j (nth (cluster_slots g * i + s) (chain_dir_slots g im l) []) 0 =
+  img_get im (g_cluster_off g (nth i l 0) + N.of_nat (32 * s + j)).
+Proof. intros Hg. exact (chain_slot_bytes_sg g im l i s j (chain_slot_geom g Hg)). Qed.
+Theorem put_chain_slots_changes g im l ss o : chain_geom g -> chain_ok g l -> shape (cluster_slots g * length l) ss ->
+  img_get (put_chain_slots g im l ss) o <> img_get im o ->
+  exists i s j, (i < length l)%nat /\ (s < cluster_slots g)%nat /\ (j < 32)%nat /\
+    o = g_cluster_off g (nth i l 0) + N.of_nat (32 * s + j) /\
+    nth (cluster_slots g * i + s) ss [] <> nth (cluster_slots g * i + s) (chain_dir_slots g im l) [].
+Proof. intros Hg. exact (put_chain_slots_changes_sg g im l ss o (chain_slot_geom g Hg)). Qed.
+Corollary put_chain_slots_same g im l o : chain_geom g -> chain_ok g l ->
+  img_get (put_chain_slots g im l (chain_dir_slots g im l)) o = img_get im o.
+Proof. intros Hg. exact (put_chain_slots_same_sg g im l o (chain_slot_geom g Hg)). Qed.
+
 
 (* ================================================================ 2. what the decoder reads below the data area *)
 
@@ -692,14 +743,15 @@ Qed.
 
 (* an entry whose decoded node (chain, content, whole sub-tree) refers to no cluster of [l] decodes alike on an image that
    differs only inside the clusters of [l] *)
-Lemma node_of_avoid g im im' l : fixed_root_geom g -> same_below_data g im im' -> same_other_clusters g l im im' ->
+Lemma node_of_avoid_gen g im im' l : (forall fuel c, chain_from g im' c fuel = chain_from g im c fuel) ->
+  same_other_clusters g l im im' ->
   forall d, (forall es, Forall (avoids l) (decode_entries g im d es) -> decode_entries g im' d es = decode_entries g im d es) /\
             (forall e, avoids l (node_of g im d e) -> node_of g im' d e = node_of g im d e).
 Proof.
-  intros Hg Hb Hc.
+  intros Hcf Hc.
   assert (forall d, (forall es, Forall (avoids l) (decode_entries g im d es) -> decode_entries g im' d es = decode_entries g im d es) ->
                     forall e, avoids l (node_of g im d e) -> node_of g im' d e = node_of g im d e) as Step.
-  { intros d Q e Ha. unfold node_of in Ha |- *. rewrite (chain_from_below g im im' Hg Hb).
+  { intros d Q e Ha. unfold node_of in Ha |- *. rewrite Hcf.
     destruct (e_is_dot e); [reflexivity|].
     destruct (if e_cluster e =? 0 then None else chain_from g im (e_cluster e) (chain_fuel g)) as [l'|] eqn:Ech; [|reflexivity].
     assert (Forall (fun x => 2 <= x) l') as H2.
@@ -720,6 +772,11 @@ Proof.
       rewrite Forall_forall in Ha. apply Ha. apply in_map. exact He. }
     split; [exact Q|exact (Step (S d) Q)].
 Qed.
+
+Lemma node_of_avoid g im im' l : fixed_root_geom g -> same_below_data g im im' -> same_other_clusters g l im im' ->
+  forall d, (forall es, Forall (avoids l) (decode_entries g im d es) -> decode_entries g im' d es = decode_entries g im d es) /\
+            (forall e, avoids l (node_of g im d e) -> node_of g im' d e = node_of g im d e).
+Proof. intros Hg Hb Hc. exact (node_of_avoid_gen g im im' l (chain_from_below g im im' Hg Hb) Hc). Qed.
 
 (* what a frame confined to the clusters of [l] gives the decoder *)
 Lemma chain_frame_reads im im' l : chain_geom (parse_geom im) -> chain_ok (parse_geom im) l -> chain_frame im im' l ->
